@@ -216,43 +216,52 @@ func (db *DB) loadMergeFiles() (uint32, error) {
 		return 0, nil
 	}
 
-	defer func() {
-		// 加载完成后删除 merge 目录
-		_ = os.RemoveAll(mergePath)
-	}()
-
-	// 处理经过重写的数据文件, 处理中途失败需返回错误
+	// 重写文件的 id 从 0 开始连续分配, 并按 id 升序移动
+	// 因此 merge 目录中剩余重写文件的最大 id 加一即为重写文件总数, 中断后重试时同样成立
+	var rewritten uint32
 	for fileID := uint32(0); fileID < mergeID; fileID++ {
-		// 删除原数据文件
-		destName := datafile.GetFileName(db.options.DirPath, fileID, datafile.DataFileSuffix)
-		var exist bool
-		if _, err := os.Stat(destName); err == nil {
-			if err = os.Remove(destName); err != nil {
-				return 0, err
-			}
-			exist = true
-		}
-		// 将重写的数据文件移动到数据目录中
 		srcFile := datafile.GetFileName(mergePath, fileID, datafile.DataFileSuffix)
-		if _, err := os.Stat(srcFile); err != nil {
-			// 如果原数据文件不存在, 则允许重写文件不存在
-			if !exist && os.IsNotExist(err) {
+		if _, err := os.Stat(srcFile); err == nil {
+			rewritten = fileID + 1
+		}
+	}
+
+	// 不存在剩余重写文件说明下述两步均已完成
+	if rewritten > 0 {
+		// 先删除没有对应重写文件的原数据文件, 重写文件数量可以少于参与 merge 的文件数量
+		for fileID := rewritten; fileID < mergeID; fileID++ {
+			destName := datafile.GetFileName(db.options.DirPath, fileID, datafile.DataFileSuffix)
+			if _, err := os.Stat(destName); err == nil {
+				if err = os.Remove(destName); err != nil {
+					return 0, err
+				}
+			}
+		}
+		// 再将重写文件移动到数据目录中, rename 原子地替换原数据文件
+		// 已移动的文件不再存在于 merge 目录, 重试时不会被再次处理, 更不会被删除
+		for fileID := uint32(0); fileID < rewritten; fileID++ {
+			srcFile := datafile.GetFileName(mergePath, fileID, datafile.DataFileSuffix)
+			if _, err := os.Stat(srcFile); err != nil {
 				continue
 			}
-			return 0, err
+			destName := datafile.GetFileName(db.options.DirPath, fileID, datafile.DataFileSuffix)
+			if err := os.Rename(srcFile, destName); err != nil {
+				return 0, err
+			}
 		}
-		if err := os.Rename(srcFile, destName); err != nil {
+	}
+
+	// 移动对应的 hint 文件, 不存在说明此前已移动
+	srcHintFile := datafile.GetFileName(mergePath, 0, datafile.HintFileSuffix)
+	destHintFile := datafile.GetFileName(db.options.DirPath, 0, datafile.HintFileSuffix)
+	if _, err := os.Stat(srcHintFile); err == nil {
+		if err := os.Rename(srcHintFile, destHintFile); err != nil {
 			return 0, err
 		}
 	}
 
-	// 移动对应的 hint 文件, 移动失败应当返回错误
-	srcHintFile := datafile.GetFileName(mergePath, 0, datafile.HintFileSuffix)
-	destHintFile := datafile.GetFileName(db.options.DirPath, 0, datafile.HintFileSuffix)
-	if _, err := os.Stat(srcHintFile); err != nil {
-		return 0, err
-	}
-	if err := os.Rename(srcHintFile, destHintFile); err != nil {
+	// 全部完成后才可删除 merge 目录, 中途失败时必须保留以便重试
+	if err := os.RemoveAll(mergePath); err != nil {
 		return 0, err
 	}
 
